@@ -1044,6 +1044,13 @@ func (s *Stage) finalize(file *finalFile) {
 		s.logDebug("Ignoring invalid (final):", file.name, existingState)
 		return
 	}
+	if cached := s.fromCache(file.path); cached != nil && cached.hash != file.hash {
+		// A newer version of the file was received and validated while this
+		// one was waiting for its predecessor.  What is staged under the name
+		// now is that version, which gets finalized (and logged) as itself.
+		s.logDebug("Ignoring replaced (final):", file.name)
+		return
+	}
 
 	if file.wait != nil {
 		file.wait.Stop()
